@@ -1,5 +1,6 @@
 """C04 — REST calls transcode each request exactly as its google.api.http rule prescribes."""
 import ast, base64, json, os, re, urllib.parse
+from google.api import annotations_pb2
 from google.api_core import path_template
 from google.protobuf import json_format
 from google.protobuf.descriptor import FieldDescriptor as FD
@@ -808,6 +809,18 @@ def witness_api():
     svc.rpc("Watch", w.fqn, rep.fqn, ss=True, http=("post", "/v1/{name=items/*}:watch"), body="*")
     svc.rpc("Tail", w.fqn, rep.fqn, ss=True, http=("post", "/v1/{name=items/*}:tail"), body="sub")
     svc.rpc("Follow", w.fqn, rep.fqn, ss=True, http=("get", "/v1/{name=items/*}:follow"))
+    # unsupported bindings (custom verb / no pattern) before, between and after standard ones (seeded change C04-n): they
+    # are skipped, the later bindings stay.  BodyRequest has no REQUIRED field.
+    svc.rpc("MidCustom", b.fqn, rep.fqn, http=("get", "/v1/{name=items/*}:mc"), more_http=[("get", "/v1/{parent=ps/*}/mc", None)])
+    A.insert_unsupported(svc.proto.method[-1], 0, True)
+    svc.rpc("MidEmpty", b.fqn, rep.fqn, http=("post", "/v1/{name=items/*}:me"), body="*",
+            more_http=[("post", "/v1/{title=ts/*}:me", "*"), ("post", "/v1/{parent=ps/*}:me", "*")])
+    A.insert_unsupported(svc.proto.method[-1], 1, False)
+    svc.rpc("LastCustom", b.fqn, rep.fqn, http=("get", "/v1/{name=items/*}:lc"))
+    A.insert_unsupported(svc.proto.method[-1], 0, True)
+    svc.rpc("CustomFirst", b.fqn, rep.fqn, http=("get", "/v1/placeholder"), more_http=[("get", "/v1/{name=items/*}:cf", None), ("get", "/v1/{parent=ps/*}:cf", None)])
+    cp = svc.proto.method[-1].options.Extensions[annotations_pb2.http].custom
+    cp.kind, cp.path = "HEAD", "/v1/cf"
     # REQUIRED query parameters of every scalar kind (and an enum), left at their defaults and set (seeded change C04-m)
     kd = f.message("KindsRequest"); kd.field("name", 1, "string")
     for n_, t_ in enumerate(sorted(apigen.SCALARS), 2):
@@ -865,6 +878,10 @@ def run_witnesses(ctx):
     expr = d.new("google.type.Expr", title="items/e1", description="d", expression="a > b")
     fixed.update({"Eval": [d.b64(expr)], "Lookup": [d.b64(expr)], "GetSettings": [d.b64(d.new("google.protobuf.Empty"))],
                   "Describe": [d.b64(d.new(P + ".EchoRequest", name="items/i"))], "ReadPolicy": [d.b64(d.new(P + ".EchoRequest", name="items/i"))]})
+    later = d.b64(d.new(P + ".BodyRequest", parent="ps/p", title="t"))        # matches only the LAST binding
+    fixed.update({"MidCustom": [later, d.b64(d.new(P + ".BodyRequest", name="items/i"))], "MidEmpty": [later],
+                  "LastCustom": [d.b64(d.new(P + ".BodyRequest", name="items/i"))],
+                  "CustomFirst": [d.b64(d.new(P + ".BodyRequest", name="items/i")), later]})
     fixed["Kinds"] = [d.b64(kinds_request(d, False)), d.b64(kinds_request(d, True))]
     plain = d.new(P + ".PlainRequest", parent="shelves/s1", kind=2, filter="x")
     plain.sub.count = 4
